@@ -27,7 +27,7 @@ pub struct Case {
 fn strategy(kmax: u32) -> impl Strategy<Value = Case> {
     (
         prop_oneof![3 => 1u32..=60, 2 => 1u32..=kmax, 1 => Just(10u32), 1 => Just(11u32)],
-        prop_oneof![1usize..=8, 1usize..=40],
+        prop_oneof![20 => 1usize..=8, 20 => 1usize..=40, 1 => prop_oneof![Just(65535usize), Just(4097usize), Just(32768usize)]],
         any::<u64>(),
         prop_oneof![6 => 0u32..=40, 1 => 0u32..=1500],
         -40i64..=40,
@@ -47,6 +47,9 @@ fn strategy(kmax: u32) -> impl Strategy<Value = Case> {
                 _ => (r % 5000) as u32,
             }
             .min(max_start - n1.min(max_start));
+            // wide symbols on small blocks and short windows only (bounded work per case)
+            let (k, n1, rpb) = if t > 2000 { (1 + k % 10, n1.min(40), rpb.min(6)) } else { (k, n1, rpb) };
+            let s1 = s1.min(max_start);
             Case { k, t, s1, n1, d2, n2, build, seed, z, repair_per_block: rpb }
         })
 }
@@ -245,7 +248,7 @@ fn signature(_: &Case, msg: &str) -> String {
 }
 
 pub fn run(ctx: &Ctx, rep: &mut Report) {
-    rep.rule = "generated (K <= 300 quick / 5000 thorough, T <= 40, construction, window (s1,n1) from {0..50} / uniform up to 2^24-K / ending exactly at ESI 2^24-1, second window at offset -40..40, n <= 40 (one window in seven up to 1500 packets long), object with Z <= 5 blocks and r <= 6 (one in six: up to 300) repair packets per block). A second group ('longwindows') has K <= 40, T <= 4 and windows of 60 000..140 000 packets (weighted to 65 530..65 560 and 131 060..131 090), the second window over the tail of the first, and object lists with up to 66 000 repair packets per block. Oracle (metamorphic + structural): window == concatenation of single-packet requests; overlapping windows agree; payload IDs are (block, K+s+i); encoders from two generated plans, the cached plan and the generated construction are == and emit identical packets; get_encoded_packets(r) is, block by block, ESI 0..K-1 then K..K+r-1 with distinct IDs, payload length T and source payloads per the reference layout; ESI 2^24-1 is producible. Non-trivial = overlapping windows with s > 0 on a block with padding; distinct by (K,T,windows).".into();
+    rep.rule = "generated (K <= 300 quick / 5000 thorough, T <= 40 (one case in forty: T in {4097, 32768, 65535} on K <= 10), construction, window (s1,n1) from {0..50} / uniform up to 2^24-K / ending exactly at ESI 2^24-1, second window at offset -40..40, n <= 40 (one window in seven up to 1500 packets long), object with Z <= 5 blocks and r <= 6 (one in six: up to 300) repair packets per block). A second group ('longwindows') has K <= 40, T <= 4 and windows of 60 000..140 000 packets (weighted to 65 530..65 560 and 131 060..131 090), the second window over the tail of the first, and object lists with up to 66 000 repair packets per block. Oracle (metamorphic + structural): window == concatenation of single-packet requests; overlapping windows agree; payload IDs are (block, K+s+i); encoders from two generated plans, the cached plan and the generated construction are == and emit identical packets; get_encoded_packets(r) is, block by block, ESI 0..K-1 then K..K+r-1 with distinct IDs, payload length T and source payloads per the reference layout; ESI 2^24-1 is producible. Non-trivial = overlapping windows with s > 0 on a block with padding; distinct by (K,T,windows).".into();
     let kmax = ctx.tier.pick(300u32, 5000);
     let n = ctx.tier.pick(50_000u64, 400_000);
     rep.absorb("windows", run_sharded("C18", "windows", ctx.seed, n, 32, move || strategy(kmax), check, to_json, signature));
